@@ -150,7 +150,8 @@ def run_mbt(ctx, d):
     for p in paths:
         if not os.path.exists(p) or os.path.getsize(p) == 0:
             raise core.Broken("%s: the specification emitted no vectors" % os.path.basename(p))
-    summ = ctx.vh_json("replay-agl", *paths, timeout=1200)
+    passed = os.path.join(ctx.scratch, "agl-passed.ndjson")
+    summ = ctx.vh_json("replay-agl", "-passed", passed, *paths, timeout=1200)
     pscommon.absorb(ctx, summ, "vh replay-agl", "AGL!ToText / AGL!Valid")
     ctx.extra["mbt"] = {"vectors": summ["vectors"], "distinct": summ["distinct"], "agreed": summ["agreed"],
                         "classes": summ["per_op"], "by_sig": summ["by_sig"]}
@@ -162,27 +163,21 @@ def run_mbt(ctx, d):
                  "validlen:valid:true", "validlen:valid:false", "validsim:valid:true", "validsim:valid:false"):
         if per.get(need, 0) == 0:
             raise core.Broken("vacuous coverage: no vector of class " + need)
-    return paths
+    return passed
 
 
-def negative_control_mbt(ctx, paths):
-    """Corrupt the prescribed outcome of recorded vectors: the replayer must object to every one."""
+def negative_control_mbt(ctx, passed):
+    """Corrupt the prescribed outcome of vectors on which the library agreed (so that the control
+    does not depend on the library being free of defects): the replayer must object to every one."""
     bad = []
-    for p in paths:
-        n = 0
-        with open(p) as f:
-            for line in f:
-                v = json.loads(line)
-                if isinstance(v, str):
-                    v = json.loads(v)
-                if v["k"] == "totext":
-                    v["text"] = v["text"] + [0x41]
-                else:
-                    v["valid"] = not v["valid"]
-                bad.append(v)
-                n += 1
-                if n >= 60:
-                    break
+    with open(passed) as f:
+        for line in f:
+            v = json.loads(line)
+            if v["k"] == "totext":
+                v["text"] = v["text"] + [0x41]
+            else:
+                v["valid"] = not v["valid"]
+            bad.append(v)
     p = os.path.join(ctx.scratch, "neg-agl.ndjson")
     with open(p, "w") as f:
         for v in bad:
@@ -241,9 +236,10 @@ def run_tv(ctx, d, gen):
     ctx.nontrivial_extra += t["records"]
     for s in t["samples"][:3]:
         ctx.sample("FromUnicode/ToUnicode: " + s)
-    bad_chunks = []
+    bad_chunks, good_chunks = [], []
     for c, r in zip(chunks, res):
         if r.ok:
+            good_chunks.append(c)
             if r.distinct != c["n"] + 1:
                 raise core.Broken("TraceAGL %s: %d states for %d events" % (c["file"], r.distinct, c["n"]))
         elif rejected(r):
@@ -293,12 +289,18 @@ def run_tv(ctx, d, gen):
                                                                 " ".join("U+%04X" % x for x in ev["text"])),
                                   how="vh trace-agl + TraceAGL", spec="TraceAGL!Codes")
         ctx.extra["tv"]["bad_events"] = nbad
-    return cs
+    return [c for c in good_chunks if c["lo"] <= 0x10FFFF and c["n"] >= 400]
 
 
-def negative_control_tv(ctx, d, cs):
-    """A short genuine trace is accepted; the same trace with one corrupted event is rejected."""
-    src = os.path.join(d, cs[0]["file"])
+def negative_control_tv(ctx, d, accepted):
+    """A short genuine trace is accepted; the same trace with one corrupted event is rejected.  The
+    genuine trace is the head of a chunk TLC accepted; when the library is so wrong that no chunk was
+    accepted there is nothing to corrupt (and the violations are reported anyway)."""
+    if not accepted:
+        ctx.extra.setdefault("negative_controls", []).append(
+            {"trace_control": "skipped: TLC accepted no chunk of the library's trace (violations are reported)"})
+        return
+    src = os.path.join(d, accepted[0]["file"])
     lines = open(src).read().splitlines()[:400]
     evs = [json.loads(l) for l in lines]
 
@@ -313,17 +315,18 @@ def negative_control_tv(ctx, d, cs):
         return {"module": "TraceAGL", "cfgfile": cfgf, "label": "trace-negctl-" + tag, "timeout": 300}
 
     def m_name(es):
-        es[0x41]["name"] = es[0x41]["name"] + [0x31]       # "A" -> "A1"
+        es[65]["name"] = es[65]["name"] + [0x31]           # in the first chunk: "A" -> "A1"
         return es
 
     def m_text(es):
-        es[0x100]["text"] = [es[0x100]["text"][0] + 1]
+        es[256]["text"] = [es[256]["text"][0] + 1]
         return es
 
     def m_lower(es):
-        # the first fallback name with a letter digit (u001A), spelled in lower case
-        e = next(e for e in es if e["name"][0] == 117 and any(65 <= c <= 70 for c in e["name"][1:]))
-        e["name"] = [117] + [c + 32 if 65 <= c <= 70 else c for c in e["name"][1:]]
+        # event 26 (in the first chunk: u001A): letters after the first byte in the other case
+        n = es[26]["name"]
+        m = n[:1] + [c ^ 32 if 65 <= c <= 90 or 97 <= c <= 122 else c for c in n[1:]]
+        es[26]["name"] = m if m != n else n + [0x61]
         return es
 
     def m_drop(es):
@@ -378,9 +381,9 @@ def run(ctx):
                       stimulus=", ".join("U+%04X" % r for r in gen["compat_not_compatibility_equivalent"][:10]),
                       how="tools/gen_agl.py (Unicode character database %s)" % gen["unicodedata"])
     d = ctx.specdir()
-    paths = run_mbt(ctx, d)
-    negative_control_mbt(ctx, paths)
-    cs = run_tv(ctx, d, gen)
-    negative_control_tv(ctx, d, cs)
+    passed = run_mbt(ctx, d)
+    negative_control_mbt(ctx, passed)
+    accepted = run_tv(ctx, d, gen)
+    negative_control_tv(ctx, d, accepted)
     if ctx.tier == "thorough":
         ctx.exhaustive = True
